@@ -362,6 +362,7 @@ pub fn eval_history(h: &History, focus: Focus, profile: &str, full: bool) -> Cas
             "redundancy" => "family_redundancy",
             "self-reference" => "family_self_reference",
             "duplicate" => "family_duplicate",
+            "symmetric-user" => "family_symmetric_user",
             _ => "family_slot_variant",
         });
     }
